@@ -138,9 +138,11 @@ def _min(a, b):
 class Lemma:
     """name, hyps(args), P(args, n), bound N(args); proved by induction on n in 0..N"""
 
-    def __init__(self, name, params, hyps, stmt, upto, assumed=None):
+    def __init__(self, name, params, hyps, stmt, upto, assumed=None, uses=None):
         self.name, self.params, self.hyps, self.stmt, self.upto = name, params, hyps, stmt, upto
         self.assumed = assumed      # text: the lemma is NOT proved here (listed as an assumption in the evidence)
+        self.uses = uses            # uses(*args, n) -> instances (H -> C) of OTHER lemmas available in the step (those lemmas
+        #                             are proved on their own; an instance of a proved lemma is a valid formula)
 
     def goals(self):
         """closed proof obligations [(label, formula)] over fresh constants"""
@@ -149,8 +151,9 @@ class Lemma:
         args = [z3.Const(f"%L_{self.name}_{nm}", srt) for nm, srt in self.params]
         n = z3.Int(f"%L_{self.name}_n")
         H, N = self.hyps(*args), self.upto(*args)
-        return [("base", z3.Implies(H, self.stmt(*args, z3.IntVal(0)))),
-                ("step", z3.Implies(z3.And(H, n >= 0, n < N, self.stmt(*args, n)), self.stmt(*args, n + 1)))]
+        extra = list(self.uses(*args, n)) if self.uses else []
+        return [("base", z3.Implies(z3.And(H, *extra), self.stmt(*args, z3.IntVal(0)))),
+                ("step", z3.Implies(z3.And(H, n >= 0, n < N, self.stmt(*args, n), *extra), self.stmt(*args, n + 1)))]
 
     def instance(self, *args):
         """H(args) -> P(args, N(args))"""
@@ -244,9 +247,105 @@ def permutation_lemma(kind):
 
     def stmt(D, W, DA, WA, p, N, n):
         lo, hi, x, c = z3.Real("%pl_lo"), z3.Real("%pl_hi"), z3.Real("%pl_x"), z3.Bool("%pl_c")
-        return z3.And(z3.ForAll([lo, hi, c], wsum_fn(kind)(DA, WA, lo, hi, c, n) == wsum_fn(kind)(D, W, lo, hi, c, n)),
+        from .tarr import sum_fn
+        return z3.And(sum_fn(kind)(WA, z3.IntVal(0), n) == sum_fn(kind)(W, z3.IntVal(0), n),
+                      z3.ForAll([lo, hi, c], wsum_fn(kind)(DA, WA, lo, hi, c, n) == wsum_fn(kind)(D, W, lo, hi, c, n)),
                       z3.ForAll([x], side_fn(kind, "below")(DA, WA, x, n) == side_fn(kind, "below")(D, W, x, n)),
                       z3.ForAll([x], side_fn(kind, "above")(DA, WA, x, n) == side_fn(kind, "above")(D, W, x, n)))
 
     return Lemma(f"permutation_{kind}", params, hyps, stmt, lambda D, W, DA, WA, p, N: N,
                  assumed="finite sums are invariant under a permutation of the index set (Mathlib Equiv.sum_comp; lean/perm_sum.lean)")
+
+
+# ---- the accounting identity: contents of consecutive bins + underflow + overflow = total weight --------------------------
+BinArr = z3.ArraySort(z3.IntSort(), z3.IntSort(), z3.RealSort())
+
+
+def adjacent_lemma(kind):
+    """[lo, mid) and [mid, hi) (or [mid, hi]) together are [lo, hi) (or [lo, hi])"""
+    s, A = _wsort(kind)
+    params = [("D", RealArr), ("W", A), ("N", z3.IntSort()), ("lo", z3.RealSort()), ("mid", z3.RealSort()), ("hi", z3.RealSort()), ("c", z3.BoolSort())]
+    f = wsum_fn(kind)
+    return Lemma(f"adjacent_{kind}", params, lambda D, W, N, lo, mid, hi, c: z3.And(N >= 0, lo <= mid, mid <= hi),
+                 lambda D, W, N, lo, mid, hi, c, n: f(D, W, lo, mid, z3.BoolVal(False), n) + f(D, W, mid, hi, c, n) == f(D, W, lo, hi, c, n),
+                 lambda D, W, N, *r: N)
+
+
+def partition_lemma(kind):
+    """below lo + inside [lo, hi] + above hi = everything"""
+    from .tarr import sum_fn
+    s, A = _wsort(kind)
+    params = [("D", RealArr), ("W", A), ("N", z3.IntSort()), ("lo", z3.RealSort()), ("hi", z3.RealSort())]
+    return Lemma(f"partition_{kind}", params, lambda D, W, N, lo, hi: z3.And(N >= 0, lo <= hi),
+                 lambda D, W, N, lo, hi, n: side_fn(kind, "below")(D, W, lo, n) + wsum_fn(kind)(D, W, lo, hi, z3.BoolVal(True), n)
+                 + side_fn(kind, "above")(D, W, hi, n) == sum_fn(kind)(W, z3.IntVal(0), n),
+                 lambda D, W, N, *r: N)
+
+
+def _rising_consecutive(B, nb):
+    j = z3.Int("%rc_j")
+    return z3.And(nb >= 1, z3.ForAll([j], z3.Implies(z3.And(j >= 0, j < nb), z3.Select(B, j, 0) < z3.Select(B, j, 1))),
+                  z3.ForAll([j], z3.Implies(z3.And(j >= 0, j < nb - 1), z3.Select(B, j, 1) == z3.Select(B, j + 1, 0))))
+
+
+def monotone_lemma():
+    """consecutive rising bins: no left edge lies below the first one"""
+    params = [("B", BinArr), ("nb", z3.IntSort())]
+
+    def stmt(B, nb, n):
+        j = z3.Int("%mono_j")
+        return z3.ForAll([j], z3.Implies(z3.And(j >= 0, j <= n, j < nb), z3.Select(B, 0, 0) <= z3.Select(B, j, 0)))
+    return Lemma("monotone_edges", params, _rising_consecutive, stmt, lambda B, nb: nb)
+
+
+def bins_sum_lemma(kind):
+    """F[j] = weighted count of bin j for every j: the sum of the first m contents is the weighted count of
+    [first left edge, right edge of bin m-1)  -- closed when m is the number of bins"""
+    from .tarr import sum_fn
+    s, A = _wsort(kind)
+    params = [("D", RealArr), ("W", A), ("N", z3.IntSort()), ("B", BinArr), ("nb", z3.IntSort()), ("F", A)]
+    f = wsum_fn(kind)
+
+    def hyps(D, W, N, B, nb, F):
+        j = z3.Int("%bs_j")
+        return z3.And(N >= 0, _rising_consecutive(B, nb),
+                      z3.ForAll([j], z3.Implies(z3.And(j >= 0, j < nb),
+                                                z3.Select(F, j) == f(D, W, z3.Select(B, j, 0), z3.Select(B, j, 1), j == nb - 1, N))))
+
+    def stmt(D, W, N, B, nb, F, n):      # m = n + 1 bins summed
+        m = n + 1
+        return z3.Implies(m <= nb, sum_fn(kind)(F, z3.IntVal(0), m) == f(D, W, z3.Select(B, 0, 0), z3.Select(B, m - 1, 1), m == nb, N))
+
+    def uses(D, W, N, B, nb, F, n):
+        m = n + 1      # the step goes from m to m + 1 bins: bin m is appended
+        return [adjacent_lemma(kind).instance(D, W, N, z3.Select(B, 0, 0), z3.Select(B, m, 0), z3.Select(B, m, 1), m + 1 == nb),
+                monotone_lemma().instance(B, nb)]
+    return Lemma(f"bins_sum_{kind}", params, hyps, stmt, lambda D, W, N, B, nb, F: nb - 1, uses=uses)
+
+
+def constant_sum_lemma():
+    """the sum of n ones is n (unweighted histograms: the total weight is the number of entries)"""
+    from .tarr import sum_fn
+    one = z3.K(z3.IntSort(), z3.IntVal(1))
+    return Lemma("sum_of_ones", [("N", z3.IntSort())], lambda N: N >= 0,
+                 lambda N, n: sum_fn("int")(one, z3.IntVal(0), n) == n, lambda N: N)
+
+
+def false_lemmas():
+    """deliberately wrong variants: the prover must NOT accept them (vacuity guard of the lemma machinery, run with the lemmas)"""
+    from .tarr import sum_fn
+    out = []
+    for kind in ("int",):
+        s, A = _wsort(kind)
+        # the closed interval replaced by the half-open one: an entry exactly on `hi` is counted nowhere
+        params = [("D", RealArr), ("W", A), ("N", z3.IntSort()), ("lo", z3.RealSort()), ("hi", z3.RealSort())]
+        out.append(Lemma(f"WRONG_partition_{kind}", params, lambda D, W, N, lo, hi: z3.And(N >= 0, lo <= hi),
+                         lambda D, W, N, lo, hi, n: side_fn(kind, "below")(D, W, lo, n) + wsum_fn(kind)(D, W, lo, hi, z3.BoolVal(False), n)
+                         + side_fn(kind, "above")(D, W, hi, n) == sum_fn(kind)(W, z3.IntVal(0), n), lambda D, W, N, *r: N))
+        # the right insertion point used for the left edge
+        good = slice_sum_lemma(kind)
+        out.append(Lemma(f"WRONG_slice_sum_{kind}", good.params,
+                         lambda D, W, N, lo, hi, c, a, b: z3.And(N >= 0, insertion_point(D, N, a, lo, "right"),
+                                                                 z3.If(c, insertion_point(D, N, b, hi, "right"), insertion_point(D, N, b, hi, "left"))),
+                         good.stmt, good.upto))
+    return out
